@@ -33,8 +33,9 @@ fn skip(k: usize) -> Option<(String, String)> {
 }
 const TIME_LIMIT_S: u64 = 20;
 
-/// Err(true): timed out (report it); Err(false): skipped because of earlier time-outs
-fn guarded<R: Send + 'static>(f: impl FnOnce() -> R + Send + 'static) -> Result<R, bool> {
+/// Ok(Ok(r)); Ok(Err(message)): the call panicked; Err(true): timed out (report it); Err(false): skipped
+/// because of earlier time-outs
+fn guarded_raw<R: Send + 'static>(f: impl FnOnce() -> R + Send + 'static) -> Result<Result<R, String>, bool> {
     use std::sync::atomic::Ordering;
     if TIMEOUTS.load(Ordering::Relaxed) >= 3 {
         return Err(false);
@@ -48,8 +49,8 @@ fn guarded<R: Send + 'static>(f: impl FnOnce() -> R + Send + 'static) -> Result<
         return Err(false);
     }
     match rx.recv_timeout(std::time::Duration::from_secs(TIME_LIMIT_S)) {
-        Ok(Ok(r)) => Ok(r),
-        Ok(Err(p)) => std::panic::resume_unwind(p),
+        Ok(Ok(r)) => Ok(Ok(r)),
+        Ok(Err(p)) => Ok(Err(p.downcast_ref::<&str>().map(|s| s.to_string()).or_else(|| p.downcast_ref::<String>().cloned()).unwrap_or_else(|| "panic".into()))),
         Err(_) => {
             TIMEOUTS.fetch_add(1, Ordering::Relaxed);
             Err(true)
@@ -57,10 +58,30 @@ fn guarded<R: Send + 'static>(f: impl FnOnce() -> R + Send + 'static) -> Result<
     }
 }
 
-fn timeout_violation(what: &str, r: Result<(), bool>) -> Option<(String, String)> {
-    match r {
-        Err(true) => Some((format!("{}:timeout", what), format!("no result within {} s (ordinary inputs take milliseconds)", TIME_LIMIT_S))),
-        _ => None,
+/// for the correspondence generators: a panic is passed on
+fn guarded<R: Send + 'static>(f: impl FnOnce() -> R + Send + 'static) -> Result<R, bool> {
+    match guarded_raw(f) {
+        Ok(Ok(r)) => Ok(r),
+        Ok(Err(msg)) => panic!("{}", msg),
+        Err(b) => Err(b),
+    }
+}
+
+/// for the laws: Err(verdict) when there is no result. A panic of the optimising fitter at its
+/// `fit_to_cubic(..).unwrap()` (fit.rs, fit_to_bezpath_opt_inner) gets its own class: that defect is a
+/// known finding (C14-fit-opt-unwrap, here C18-opt-unwrap); every other panic is `<what>:panic`.
+fn guarded_law<R: Send + 'static>(what: &str, f: impl FnOnce() -> R + Send + 'static) -> Result<R, Option<(String, String)>> {
+    match guarded_raw(f) {
+        Ok(Ok(r)) => Ok(r),
+        Ok(Err(msg)) => {
+            if what.ends_with("-opt") && msg.contains("Option::unwrap()") {
+                Err(Some((format!("opt-panic-unwrap:{}", what), format!("fit_to_bezpath_opt panicked: {}", msg))))
+            } else {
+                Err(Some((format!("{}:panic", what), format!("panicked: {}", msg))))
+            }
+        }
+        Err(true) => Err(Some((format!("{}:timeout", what), format!("no result within {} s (ordinary inputs take milliseconds)", TIME_LIMIT_S)))),
+        Err(false) => Err(None),
     }
 }
 
@@ -1644,7 +1665,7 @@ fn law_fit_chain(a: &[f64]) -> Option<(String, String)> {
     }
     let what = if mode { "fit-opt" } else { "fit" };
     let els2 = els.clone();
-    let out = match guarded(move || {
+    let out = match guarded_law(what, move || {
         let s = SimplifyBezPath::new(els2.iter().copied());
         if mode {
             fit_to_bezpath_opt(&s, acc)
@@ -1653,7 +1674,7 @@ fn law_fit_chain(a: &[f64]) -> Option<(String, String)> {
         }
     }) {
         Ok(o) => o,
-        Err(f) => return timeout_violation(what, Err(f)),
+        Err(v) => return v,
     };
     check_fitted(&src, &out, acc, what)
 }
@@ -1717,7 +1738,7 @@ fn law_fit_analytic(v: &[f64]) -> Option<(String, String)> {
     let (th0, th1) = (v[12], v[13]);
     let bump = matches!(a, Analytic::Bump(..));
     let what = if mode { "analytic-opt" } else { "analytic" };
-    let out = match guarded(move || {
+    let out = match guarded_law(what, move || {
         let src = AnaSrc { a, th0, th1 };
         if mode {
             fit_to_bezpath_opt(&src, acc)
@@ -1726,7 +1747,7 @@ fn law_fit_analytic(v: &[f64]) -> Option<(String, String)> {
         }
     }) {
         Ok(o) => o,
-        Err(f) => return timeout_violation(what, Err(f)),
+        Err(v) => return v,
     };
     // pieces for the distance oracle: fine enough to resolve a localised feature
     let n = if bump { 100 } else { (((th1 - th0).abs() / 0.5).ceil() as usize).clamp(1, 60) };
@@ -1794,7 +1815,7 @@ fn law_offset(v: &[f64]) -> Option<(String, String)> {
             return skip(2);
         }
     }
-    let out = match guarded(move || {
+    let out = match guarded_law(what, move || {
         let co = CubicOffset::new(c, d);
         if mode {
             fit_to_bezpath_opt(&co, acc)
@@ -1803,7 +1824,7 @@ fn law_offset(v: &[f64]) -> Option<(String, String)> {
         }
     }) {
         Ok(o) => o,
-        Err(f) => return timeout_violation(what, Err(f)),
+        Err(v) => return v,
     };
     let els = out.elements();
     if !finite_els(els) {
@@ -1989,12 +2010,12 @@ fn law_simplify(v: &[f64]) -> Option<(String, String)> {
     }
     let what = if level { "simplify-opt" } else { "simplify" };
     let els2 = els.clone();
-    let out = match guarded(move || {
+    let out = match guarded_law(what, move || {
         let opts = SimplifyOptions::default().opt_level(if level { SimplifyOptLevel::Optimize } else { SimplifyOptLevel::Subdivide });
         simplify_bezpath(els2.iter().copied(), acc, &opts)
     }) {
         Ok(o) => o,
-        Err(f) => return timeout_violation(what, Err(f)),
+        Err(v) => return v,
     };
     let oels = out.elements();
     if !finite_els(oels) {
@@ -2133,8 +2154,16 @@ const KNOWN_WITNESSES: [(&str, &str, [f64; 15]); 4] = [
     ),
 ];
 
+/// fit_chain args of the C18-opt-unwrap witness: a 17-cubic G1 spiral chain of size ~1.3 at accuracy 0.796
+const UNWRAP_WITNESS: [f64; 124] = [1.0, 0.7956298433859463, 0.0, -0.1321005635185002, 0.9954936910413683, 3.0, -0.20740104187327008, 0.974620528974397, -0.2790560335973484, 0.9316033008987297, -0.3352183638688568, 0.8706897199186754, 3.0, -0.3913806941403654, 0.8097761389386211, -0.43180027121017034, 0.7310870847528879, -0.44833587653648105, 0.6450928106035041, 3.0, -0.46487148186279176, 0.5590985364541203, -0.45737161678194255, 0.46604681440600115, -0.4244876044706802, 0.3798157185566169, 3.0, -0.3916035921594178, 0.2935846227072325, -0.3333418267331299, 0.2144772847459765, -0.2562713742926988, 0.15556231864036696, 3.0, -0.1792009218522677, 0.09664735253475754, -0.08349746196599755, 0.058187541593946124, 0.01773363576553938, 0.04810243263917535, 3.0, 0.11896473349707631, 0.03801732368440458, 0.22542227384037944, 0.05643954510610172, 0.3211083415409182, 0.10309987842008506, 3.0, 0.41679440924145694, 0.1497602117340685, 0.5013706763538588, 0.224607321297409, 0.5608430655971883, 0.3185464497130771, 3.0, 0.6203154548405181, 0.4124855781287452, 0.6544155666665891, 0.5252837942363251, 0.6558058375060981, 0.6411848543526092, 3.0, 0.657196108345607, 0.7570859144688932, 0.6257700958891088, 0.8757368863316771, 0.5637293802549129, 0.9791987190933362, 3.0, 0.5016886646207169, 1.0826605518549952, 0.4091348399192787, 1.170565050600394, 0.2978602461609881, 1.2283121514011262, 3.0, 0.18658565240269753, 1.2860592522018586, 0.05688215122135176, 1.3133822995399327, -0.07286740486178317, 1.3038888185245914, 3.0, -0.20261696094491805, 1.2943953375092503, -0.3320103965524753, 1.2480122208766498, -0.44138173111123485, 1.1691690584119783, 3.0, -0.5507530656699944, 1.0903258959473068, -0.6397101649636485, 0.9791792877721992, -0.6933866687900339, 0.8503562517148038, 3.0, -0.7470631726164194, 0.7215332156574084, -0.7652017370888755, 0.5753854218885999, -0.7427168401054465, 0.43285778012172466, 3.0, -0.7202319431220174, 0.29033013835484955, -0.6570907138113273, 0.15187078254551856, -0.5602240103007914, 0.03862482202004991, 3.0, -0.4633573067902555, -0.07462113850541885, -0.3329808537023687, -0.16224409908060022, -0.18665661368875847, -0.20946780244622198, 3.0, -0.04033237367514825, -0.2566915058118442, 0.12152811787967682, -0.2632756145179822, 0.2755226111391539, -0.22579812850155734];
+
 fn extra(_r: &mut Rng, _thorough: bool, o: &mut Out) {
     use std::sync::atomic::Ordering::Relaxed;
+    {
+        let res = law_fit_chain(&UNWRAP_WITNESS);
+        let fails = matches!(&res, Some((c, _)) if c.starts_with("opt-panic-unwrap"));
+        o.known("C18-opt-unwrap", fails, format!("fit_to_bezpath_opt on a 17-cubic G1 spiral chain of size 1.3 at accuracy 0.796 -> {}", res.map(|x| format!("{}: {}", x.0, x.1)).unwrap_or_else(|| "holds now".into())));
+    }
     for (id, what, args) in KNOWN_WITNESSES.iter() {
         let res = law_fit_feature(args);
         o.known(id, res.is_some(), format!("{} -> {}", what, res.map(|x| format!("{}: {}", x.0, x.1)).unwrap_or_else(|| "holds now".into())));
